@@ -676,20 +676,47 @@ func genTyped(emit func(string), tier string, rng *Rng) {
 				emit(fmt.Sprintf("typedseq %s %s %s", t.name, printMessage(&m), printMessage(&m2)))
 				count("reset-reuse")
 			}
+			if j%10 == 0 { // … with a message that has NOTHING of what the struct holds: no fields at all, one known field only,
+				// only unknown fields — whatever survives the Reset (marks, unknown / developer fields, a slot) shows
+				empty := proto.Message{Num: t.num}
+				emit(fmt.Sprintf("typedseq %s %s %s", t.name, printMessage(&m), printMessage(&empty)))
+				if len(t.slots) > 0 {
+					sl := &t.slots[r.Intn(len(t.slots))]
+					one := proto.Message{Num: t.num, Fields: []proto.Field{stdField(t, sl.num, slotValue(sl, 0, r), false)}}
+					emit(fmt.Sprintf("typedseq %s %s %s", t.name, printMessage(&m), printMessage(&one)))
+				}
+				unk := proto.Message{Num: t.num, Fields: []proto.Field{unknownField(r.Intn(256), pv[r.Intn(len(pv))], false)}}
+				emit(fmt.Sprintf("typedseq %s %s %s", t.name, printMessage(&m), printMessage(&unk)))
+				count("reset-reuse-bare")
+			}
 		}
-		// more fields than the conversion pool holds (poolsize = the longest message): unknown fields beyond it, known ones after them
-		if t.num%8 == 0 || tier == "thorough" {
-			var m proto.Message
-			m.Num = t.num
-			for k := 0; k < 300; k++ {
-				m.Fields = append(m.Fields, unknownField(k%256, proto.Uint8(uint8(k)), k%7 == 0))
+		// more fields than the conversion pool holds (poolsize = 156 = the longest message): unknown fields up to and beyond it, known
+		// ones after them — for EVERY message type (a guard at the boundary in one generated file is a per-file slip); totals of
+		// exactly poolsize-1, poolsize, poolsize+1 fields and far beyond
+		{
+			sizes := []int{300}
+			if t.num%4 == 0 || tier == "thorough" {
+				sizes = []int{155, 156, 157, 300}
 			}
-			for i := range t.slots {
-				m.Fields = append(m.Fields, stdField(t, t.slots[i].num, slotValue(&t.slots[i], 0, r), false))
+			for _, total := range sizes {
+				var m proto.Message
+				m.Num = t.num
+				nUnknown := total - len(t.slots)
+				if nUnknown < 1 {
+					nUnknown = total
+				}
+				for k := 0; k < nUnknown; k++ {
+					m.Fields = append(m.Fields, unknownField(k%256, proto.Uint8(uint8(k)), k%7 == 0))
+				}
+				for i := range t.slots {
+					m.Fields = append(m.Fields, stdField(t, t.slots[i].num, slotValue(&t.slots[i], 0, r), false))
+				}
+				em("typedms", "o:i,std", &m)
+				if total == 300 {
+					em("typedrt", "o:-,std", &m)
+				}
+				count("beyond-poolsize")
 			}
-			em("typedms", "o:i,std", &m)
-			em("typedrt", "o:-,std", &m)
-			count("beyond-poolsize")
 		}
 		// structs → message → struct
 		for j := 0; j < nStruct; j++ {
